@@ -20,6 +20,8 @@ pub struct Form {
 
 pub struct Target {
     pub name: &'static str,
+    /// executed before the history, outside all groups; touches only this target
+    pub setup: String,
     pub probe: String,
     pub initial: String,
     pub forms: Vec<Form>,
@@ -37,6 +39,7 @@ pub enum Class {
 pub struct Kind {
     pub name: &'static str,
     pub class: Class,
+    /// executed first; defines helpers only (never a target of any kind)
     pub setup: String,
     pub targets: Vec<Target>,
     pub nvals: usize,
@@ -50,8 +53,27 @@ const CATS: [u8; 10] = [11, 7, 8, 3, 4, 6, 13, 1, 2, 10];
 fn abs_form(name: &'static str, text: impl Fn(usize) -> String + Send + Sync + 'static, obs: impl Fn(usize) -> String + Send + Sync + 'static) -> Form {
     Form { name, gdef: false, text: Box::new(text), apply: Box::new(move |_, i| obs(i)) }
 }
+fn letter(base: u8, i: usize) -> char {
+    (base + (i % 26) as u8) as char
+}
+/// probe text of a command target: a control word needs a delimiting space, an active char does not
+fn exec_probe(lhs: &str) -> String {
+    if lhs.starts_with('\\') {
+        format!("{lhs} ")
+    } else {
+        lhs.to_string()
+    }
+}
+/// `!` has to be made active first; `~` is active in the default table
+fn active_setup(lhs: &str) -> String {
+    if lhs == "!" {
+        "\\catcode`\\!=13 ".into()
+    } else {
+        String::new()
+    }
+}
 
-fn int_target(name: &'static str, lhs: &'static str, initial: i64, alias: Option<&'static str>) -> Target {
+fn int_target(name: &'static str, lhs: &'static str, initial: i64, setup: &str, alias: Option<&'static str>) -> Target {
     let mut forms = vec![
         abs_form("set", move |i| format!("{lhs}={} ", i + 1), |i| (i + 1).to_string()),
         Form { name: "advance", gdef: false, text: Box::new(move |i| format!("\\advance{lhs} by {} ", 100 * (i + 1))), apply: Box::new(|cur, i| (cur.parse::<i64>().unwrap() + 100 * (i as i64 + 1)).to_string()) },
@@ -59,7 +81,7 @@ fn int_target(name: &'static str, lhs: &'static str, initial: i64, alias: Option
     if let Some(a) = alias {
         forms.push(abs_form("set-through-alias", move |i| format!("{a}={} ", 50 + i), |i| (50 + i).to_string()));
     }
-    Target { name, probe: format!("\\the{lhs} "), initial: initial.to_string(), forms }
+    Target { name, setup: setup.into(), probe: format!("\\the{lhs} "), initial: initial.to_string(), forms }
 }
 
 fn pt(obs: &str) -> (i64, i64) {
@@ -83,12 +105,13 @@ pub fn kinds() -> Vec<Kind> {
     v.push(Kind {
         name: "count",
         class: Class::Variable,
-        setup: "\\countdef\\ca=1 ".into(),
-        targets: vec![int_target("count1", "\\count1", 0, Some("\\ca")), int_target("count2", "\\count2", 0, None)],
+        setup: String::new(),
+        targets: vec![int_target("count1", "\\count1", 0, "\\countdef\\ca=1 ", Some("\\ca")), int_target("count2", "\\count2", 0, "", None)],
         nvals: NV,
     });
     let dimen = |name: &'static str, lhs: &'static str| Target {
         name,
+        setup: String::new(),
         probe: format!("\\the{lhs} "),
         initial: "0.0pt".into(),
         forms: vec![
@@ -99,6 +122,7 @@ pub fn kinds() -> Vec<Kind> {
     v.push(Kind { name: "dimen", class: Class::Variable, setup: String::new(), targets: vec![dimen("dimen1", "\\dimen1"), dimen("dimen2", "\\dimen2")], nvals: NV });
     let skip = |name: &'static str, lhs: &'static str| Target {
         name,
+        setup: String::new(),
         probe: format!("\\the{lhs} "),
         initial: "0.0pt".into(),
         forms: vec![
@@ -115,43 +139,46 @@ pub fn kinds() -> Vec<Kind> {
         ],
     };
     v.push(Kind { name: "skip", class: Class::Variable, setup: String::new(), targets: vec![skip("skip1", "\\skip1"), skip("skip2", "\\skip2")], nvals: NV });
-    let toks = |name: &'static str, lhs: &'static str, alias: Option<&'static str>| {
+    let toks = |name: &'static str, lhs: &'static str, setup: &str, alias: Option<&'static str>| {
         let mut forms = vec![abs_form("set", move |i| format!("{lhs}={{{}}}", i + 1), |i| (i + 1).to_string())];
         if let Some(a) = alias {
             forms.push(abs_form("set-through-alias", move |i| format!("{a}={{{}}}", 50 + i), |i| (50 + i).to_string()));
         }
-        Target { name, probe: format!("\\the{lhs} "), initial: String::new(), forms }
+        Target { name, setup: setup.into(), probe: format!("\\the{lhs} "), initial: String::new(), forms }
     };
-    v.push(Kind { name: "toks", class: Class::Variable, setup: "\\toksdef\\ta=1 ".into(), targets: vec![toks("toks1", "\\toks1", Some("\\ta")), toks("toks2", "\\toks2", None)], nvals: NV });
+    v.push(Kind { name: "toks", class: Class::Variable, setup: String::new(), targets: vec![toks("toks1", "\\toks1", "\\toksdef\\ta=1 ", Some("\\ta")), toks("toks2", "\\toks2", "", None)], nvals: NV });
     let cat = |name: &'static str, ch: &'static str| Target {
         name,
+        setup: String::new(),
         probe: format!("\\the\\catcode`\\{ch} "),
         initial: "12".into(),
         forms: vec![abs_form("set", move |i| format!("\\catcode`\\{ch}={} ", CATS[i % CATS.len()]), |i| CATS[i % CATS.len()].to_string())],
     };
     v.push(Kind { name: "catcode-low", class: Class::Variable, setup: String::new(), targets: vec![cat("catcode |", "|"), cat("catcode /", "/")], nvals: CATS.len() });
     v.push(Kind { name: "catcode-high", class: Class::Variable, setup: String::new(), targets: vec![cat("catcode é", "é"), cat("catcode ß", "ß")], nvals: CATS.len() });
-    let mathcode = |name: &'static str, ch: &'static str, initial: &'static str| Target {
+    let mathcode = |name: &'static str, ch: &'static str| Target {
         name,
+        setup: format!("\\mathcode`\\{ch}=777 "),
         probe: format!("\\the\\mathcode`\\{ch} "),
-        initial: initial.into(),
+        initial: "777".into(),
         forms: vec![abs_form("set", move |i| format!("\\mathcode`\\{ch}={} ", i + 1), |i| (i + 1).to_string())],
     };
-    v.push(Kind { name: "mathcode", class: Class::Variable, setup: String::new(), targets: vec![mathcode("mathcode |", "|", "124"), mathcode("mathcode é", "é", "233")], nvals: NV });
+    v.push(Kind { name: "mathcode", class: Class::Variable, setup: String::new(), targets: vec![mathcode("mathcode |", "|"), mathcode("mathcode é", "é")], nvals: NV });
     v.push(Kind {
         name: "endlinechar",
         class: Class::Variable,
         setup: String::new(),
-        targets: vec![Target { name: "endlinechar", probe: "\\the\\endlinechar ".into(), initial: "13".into(), forms: vec![abs_form("set", |i| format!("\\endlinechar={} ", 65 + i), |i| (65 + i).to_string())] }],
+        targets: vec![Target { name: "endlinechar", setup: String::new(), probe: "\\the\\endlinechar ".into(), initial: "13".into(), forms: vec![abs_form("set", |i| format!("\\endlinechar={} ", 65 + i), |i| (65 + i).to_string())] }],
         nvals: NV,
     });
-    v.push(Kind { name: "time-singleton", class: Class::Variable, setup: String::new(), targets: vec![int_target("year", "\\year", 2000, None), int_target("month", "\\month", 1, None)], nvals: NV });
-    v.push(Kind { name: "newint", class: Class::Variable, setup: "\\newInt\\na \\newInt\\nb ".into(), targets: vec![int_target("newInt a", "\\na", 0, None), int_target("newInt b", "\\nb", 0, None)], nvals: NV });
-    v.push(Kind { name: "newintarray", class: Class::Variable, setup: "\\newIntArray\\ia 3 ".into(), targets: vec![int_target("array[0]", "\\ia 0", 0, None), int_target("array[2]", "\\ia 2", 0, None)], nvals: NV });
-    // ---------------------------------------------------------------- commands (control sequences)
+    v.push(Kind { name: "time-singleton", class: Class::Variable, setup: String::new(), targets: vec![int_target("year", "\\year", 2000, "", None), int_target("month", "\\month", 1, "", None)], nvals: NV });
+    v.push(Kind { name: "newint", class: Class::Variable, setup: String::new(), targets: vec![int_target("newInt a", "\\na", 0, "\\newInt\\na ", None), int_target("newInt b", "\\nb", 0, "\\newInt\\nb ", None)], nvals: NV });
+    v.push(Kind { name: "newintarray", class: Class::Variable, setup: "\\newIntArray\\ia 3 ".into(), targets: vec![int_target("array[0]", "\\ia 0", 0, "", None), int_target("array[2]", "\\ia 2", 0, "", None)], nvals: NV });
+    // ---------------------------------------------------------------- commands
     let mac = |name: &'static str, lhs: &'static str| Target {
         name,
-        probe: if lhs.starts_with('\\') { format!("{lhs} ") } else { lhs.to_string() },
+        setup: active_setup(lhs),
+        probe: exec_probe(lhs),
         initial: format!("<undef {lhs}>"),
         forms: vec![
             abs_form("def", move |i| format!("\\def{lhs}{{{}}}", i + 1), |i| (i + 1).to_string()),
@@ -159,68 +186,72 @@ pub fn kinds() -> Vec<Kind> {
         ],
     };
     v.push(Kind { name: "macro", class: Class::ControlSequence, setup: String::new(), targets: vec![mac("\\ma", "\\ma"), mac("\\mb", "\\mb")], nvals: NV });
-    v.push(Kind { name: "macro-active", class: Class::ActiveChar, setup: "\\catcode`\\!=13 ".into(), targets: vec![mac("~", "~"), mac("!", "!")], nvals: NV });
-    let letters: Vec<char> = ('a'..='z').collect();
-    let xdefs: String = (0..NV).map(|i| format!("\\def\\x{}{{X{}}}", letters[i], letters[i])).collect();
-    let lett = move |name: &'static str, lhs: &'static str| Target {
+    v.push(Kind { name: "macro-active", class: Class::ActiveChar, setup: String::new(), targets: vec![mac("~", "~"), mac("!", "!")], nvals: NV });
+    let xdefs: String = (0..NV).map(|i| format!("\\def\\x{}{{X{}}}", letter(b'a', i), letter(b'a', i))).collect();
+    let lett = |name: &'static str, lhs: &'static str| Target {
         name,
-        probe: if lhs.starts_with('\\') { format!("{lhs} ") } else { lhs.to_string() },
+        setup: active_setup(lhs),
+        probe: exec_probe(lhs),
         initial: format!("<undef {lhs}>"),
         forms: vec![
-            abs_form("let-macro", move |i| format!("\\let{lhs}=\\x{} ", (b'a' + (i % 26) as u8) as char), |i| format!("X{}", (b'a' + (i % 26) as u8) as char)),
-            abs_form("let-char", move |i| format!("\\let{lhs}={}", (b'A' + (i % 26) as u8) as char), |i| ((b'A' + (i % 26) as u8) as char).to_string()),
+            abs_form("let-macro", move |i| format!("\\let{lhs}=\\x{} ", letter(b'a', i)), |i| format!("X{}", letter(b'a', i))),
+            abs_form("let-char", move |i| format!("\\let{lhs}={}", letter(b'A', i)), |i| letter(b'A', i).to_string()),
         ],
     };
     v.push(Kind { name: "let", class: Class::ControlSequence, setup: xdefs.clone(), targets: vec![lett("\\la", "\\la"), lett("\\lb", "\\lb")], nvals: NV });
-    v.push(Kind { name: "let-active", class: Class::ActiveChar, setup: format!("\\catcode`\\!=13 {xdefs}"), targets: vec![lett("~", "~"), lett("!", "!")], nvals: NV });
+    v.push(Kind { name: "let-active", class: Class::ActiveChar, setup: xdefs.clone(), targets: vec![lett("~", "~"), lett("!", "!")], nvals: NV });
     let counts: String = (0..NV).map(|i| format!("\\count{}={} ", 10 + i, 100 + i)).collect::<String>() + "\\count9=99 ";
     let cdef = |name: &'static str, lhs: &'static str| Target {
         name,
+        setup: format!("{}\\countdef{lhs}=9 ", active_setup(lhs)),
         probe: format!("\\the{lhs} "),
         initial: "99".into(),
         forms: vec![abs_form("countdef", move |i| format!("\\countdef{lhs}={} ", 10 + i), |i| (100 + i).to_string())],
     };
-    v.push(Kind { name: "countdef", class: Class::ControlSequence, setup: format!("{counts}\\countdef\\cd=9 \\countdef\\ce=9 "), targets: vec![cdef("\\cd", "\\cd"), cdef("\\ce", "\\ce")], nvals: NV });
-    v.push(Kind { name: "countdef-active", class: Class::ActiveChar, setup: format!("{counts}\\catcode`\\!=13 \\countdef~=9 \\countdef!=9 "), targets: vec![cdef("~", "~"), cdef("!", "!")], nvals: NV });
+    v.push(Kind { name: "countdef", class: Class::ControlSequence, setup: counts.clone(), targets: vec![cdef("\\cd", "\\cd"), cdef("\\ce", "\\ce")], nvals: NV });
+    v.push(Kind { name: "countdef-active", class: Class::ActiveChar, setup: counts.clone(), targets: vec![cdef("~", "~"), cdef("!", "!")], nvals: NV });
     let tokss: String = (0..NV).map(|i| format!("\\toks{}={{T{}}}", 10 + i, i)).collect::<String>() + "\\toks9={T}";
     let tdef = |name: &'static str, lhs: &'static str| Target {
         name,
+        setup: format!("\\toksdef{lhs}=9 "),
         probe: format!("\\the{lhs} "),
         initial: "T".into(),
         forms: vec![abs_form("toksdef", move |i| format!("\\toksdef{lhs}={} ", 10 + i), |i| format!("T{i}"))],
     };
-    v.push(Kind { name: "toksdef", class: Class::ControlSequence, setup: format!("{tokss}\\toksdef\\td=9 \\toksdef\\te=9 "), targets: vec![tdef("\\td", "\\td"), tdef("\\te", "\\te")], nvals: NV });
+    v.push(Kind { name: "toksdef", class: Class::ControlSequence, setup: tokss, targets: vec![tdef("\\td", "\\td"), tdef("\\te", "\\te")], nvals: NV });
     let chdef = |name: &'static str, lhs: &'static str| Target {
         name,
-        probe: if lhs.starts_with('\\') { format!("{lhs} ") } else { lhs.to_string() },
+        setup: active_setup(lhs),
+        probe: exec_probe(lhs),
         initial: format!("<undef {lhs}>"),
-        forms: vec![abs_form("chardef", move |i| format!("\\chardef{lhs}={} ", 65 + i), |i| ((65 + i as u8) as char).to_string())],
+        forms: vec![abs_form("chardef", move |i| format!("\\chardef{lhs}={} ", 65 + i), |i| letter(b'A', i).to_string())],
     };
     v.push(Kind { name: "chardef", class: Class::ControlSequence, setup: String::new(), targets: vec![chdef("\\ch", "\\ch"), chdef("\\ci", "\\ci")], nvals: NV });
-    v.push(Kind { name: "chardef-active", class: Class::ActiveChar, setup: "\\catcode`\\!=13 ".into(), targets: vec![chdef("~", "~"), chdef("!", "!")], nvals: NV });
+    v.push(Kind { name: "chardef-active", class: Class::ActiveChar, setup: String::new(), targets: vec![chdef("~", "~"), chdef("!", "!")], nvals: NV });
     let mcdef = |name: &'static str, lhs: &'static str| Target {
         name,
+        setup: format!("\\mathchardef{lhs}=999 "),
         probe: format!("\\the{lhs} "),
         initial: "999".into(),
         forms: vec![abs_form("mathchardef", move |i| format!("\\mathchardef{lhs}={} ", i + 1), |i| (i + 1).to_string())],
     };
-    v.push(Kind { name: "mathchardef", class: Class::ControlSequence, setup: "\\mathchardef\\mc=999 \\mathchardef\\md=999 ".into(), targets: vec![mcdef("\\mc", "\\mc"), mcdef("\\md", "\\md")], nvals: NV });
+    v.push(Kind { name: "mathchardef", class: Class::ControlSequence, setup: String::new(), targets: vec![mcdef("\\mc", "\\mc"), mcdef("\\md", "\\md")], nvals: NV });
     // ---------------------------------------------------------------- current font
     v.push(Kind {
         name: "font",
         class: Class::Font,
         setup: String::new(),
-        targets: vec![Target { name: "current font", probe: "\\probefont ".into(), initial: "F0".into(), forms: vec![abs_form("select", |i| format!("\\fn{} ", (b'a' + (i % 26) as u8) as char), |i| format!("F{}", i + 1))] }],
+        targets: vec![Target { name: "current font", setup: String::new(), probe: "\\probefont ".into(), initial: "F0".into(), forms: vec![abs_form("select", |i| format!("\\fn{} ", letter(b'a', i)), |i| format!("F{}", i + 1))] }],
         nvals: NV,
     });
     // ---------------------------------------------------------------- \globaldefs itself
-    // value index i -> +1, -1, 0 (the sign is what matters); three forms so that an alphabet can name them
+    // three forms (+1, -1, 0: the sign is what matters) so that an alphabet can name them
     let gd = |name: &'static str, val: i64| Form { name, gdef: false, text: Box::new(move |_| format!("\\globaldefs={val} ")), apply: Box::new(move |_, _| val.to_string()) };
     v.push(Kind {
         name: "globaldefs",
         class: Class::GlobalDefs,
         setup: String::new(),
-        targets: vec![Target { name: "globaldefs", probe: "\\the\\globaldefs ".into(), initial: "0".into(), forms: vec![gd("=1", 1), gd("=-1", -1), gd("=0", 0)] }],
+        targets: vec![Target { name: "globaldefs", setup: String::new(), probe: "\\the\\globaldefs ".into(), initial: "0".into(), forms: vec![gd("=1", 1), gd("=-1", -1), gd("=0", 0)] }],
         nvals: NV,
     });
     v
